@@ -37,11 +37,14 @@ pub fn decode(src: &mut &[u8], dst: &mut [u8], state_count: usize) -> io::Result
     Ok(())
 }
 
-pub fn normalize_frequencies(frequencies: &mut [u32; ALPHABET_SIZE], bits: u32) {
-    let mut sum: u32 = frequencies.iter().sum();
+pub fn normalize_frequencies(frequencies: &mut [u32; ALPHABET_SIZE], bits: u32) -> io::Result<()> {
+    let mut sum = frequencies
+        .iter()
+        .try_fold(0u32, |sum, f| sum.checked_add(*f))
+        .ok_or_else(invalid_frequencies)?;
 
     if sum == 0 || sum == (1 << bits) {
-        return;
+        return Ok(());
     }
 
     let mut shift = 0;
@@ -51,9 +54,20 @@ pub fn normalize_frequencies(frequencies: &mut [u32; ALPHABET_SIZE], bits: u32) 
         shift += 1;
     }
 
+    // The normalized frequencies must sum to 2^bits; otherwise, the state step can overflow.
+    if sum != (1 << bits) {
+        return Err(invalid_frequencies());
+    }
+
     for f in frequencies {
         *f <<= shift;
     }
+
+    Ok(())
+}
+
+fn invalid_frequencies() -> io::Error {
+    io::Error::new(io::ErrorKind::InvalidData, "invalid frequencies")
 }
 
 fn read_frequencies(src: &mut &[u8]) -> io::Result<[u32; ALPHABET_SIZE]> {
@@ -67,7 +81,7 @@ fn read_frequencies(src: &mut &[u8]) -> io::Result<[u32; ALPHABET_SIZE]> {
         }
     }
 
-    normalize_frequencies(&mut frequencies, NORMALIZATION_BITS);
+    normalize_frequencies(&mut frequencies, NORMALIZATION_BITS)?;
 
     Ok(frequencies)
 }
